@@ -1,18 +1,23 @@
 #!/bin/bash
-# tools/reverify_seeds.sh [id...]  — re-runs every kept seed against /repo HEAD: patch applies, suite passes, demo fails, check fires.
+# tools/reverify_seeds.sh [-j N] [id...]  — re-runs every kept seed against /repo HEAD: patch applies, suite passes, demo
+# fails, and the check(s) its meta.json names under caught_by ("Cxx quick") report a violation. N seeds at a time.
 cd /verif
+J=1; if [ "$1" = "-j" ]; then J=$2; shift 2; fi
 OUT=/verif/.work/reverify; mkdir -p $OUT
 IDS="$@"; [ -z "$IDS" ] && IDS=$(ls seeded)
-for id in $IDS; do
+one() {
+  id=$1; OUT=/verif/.work/reverify
   P=$(jq -r .breaks seeded/$id/meta.json)
-  PROPS=$P
-  # seeds documented as caught by another property's check
-  case $id in C06-B) PROPS="C12";; C05-H|C05-I) PROPS="C04";; C18-I) PROPS="C15";; C15-E) PROPS="C15 C14";; C18-D) PROPS="C18";; C09-K) PROPS="C10";; C06-J) PROPS="C12";; C05-K) PROPS="C04";; C07-J) PROPS="C09";; C19-M) PROPS="C12";; C05-M) PROPS="C04 C02";; esac
+  # the checks that the record says catch it (the first one named is tried first; any one firing counts)
+  PROPS=$(jq -r '.caught_by // ""' seeded/$id/meta.json | grep -o 'C[0-9][0-9] quick' | cut -c1-3 | awk '!s[$0]++' | tr '\n' ' ')
+  [ -z "$PROPS" ] && PROPS=$P
   tools/try_seed.sh /verif/seeded/$id - quick $PROPS > $OUT/$id.log 2>&1
   applies=$(grep -c "patch does not apply" $OUT/$id.log)
   clean=$(grep -c "demo on clean tree: PASS" $OUT/$id.log)
   suite=$(grep -c "suite with change: PASS" $OUT/$id.log)
   demo=$(grep -c "demo with change: FAIL" $OUT/$id.log)
   fired=$(grep -c "VIOLATION\|violated" $OUT/$id.log)
-  echo "$id applies=$((1-applies)) clean_demo_pass=$clean suite_pass=$suite demo_fails=$demo check_fires=$fired"
-done
+  echo "$id applies=$((1-applies)) clean_demo_pass=$clean suite_pass=$suite demo_fails=$demo check_fires=$fired checks=[$PROPS]"
+}
+export -f one
+printf '%s\n' $IDS | xargs -P $J -I{} bash -c 'one {}'
